@@ -34,9 +34,8 @@ pub struct WorkerArgs {
 /// Worker: explore this shard of every (scenario, start). Returns per-scenario stats.
 pub fn run_worker(scenarios: Vec<Scenario>, oracle: Option<OracleFactory>, a: &WorkerArgs) -> BTreeMap<String, Stats> {
     let mut out = BTreeMap::new();
-    let total_w: f64 = scenarios.iter().map(|s| s.weight * s.starts.len() as f64).sum();
+    let mut remaining_w: f64 = scenarios.iter().map(|s| s.weight * s.starts.len() as f64).sum();
     let t0 = Instant::now();
-    let mut spent_budget = 0.0;
     // one configuration per process: all scenarios of a worker must agree
     if let Some(s) = scenarios.first() {
         inst::set_config(&s.network, s.traces);
@@ -47,10 +46,10 @@ pub fn run_worker(scenarios: Vec<Scenario>, oracle: Option<OracleFactory>, a: &W
     for sc in &scenarios {
         let mut agg = Stats { complete: true, depth_completed: sc.bounds.depth, ..Default::default() };
         for (sname, setup) in &sc.starts {
-            let share = a.budget_s * sc.weight / total_w;
-            spent_budget += share;
-            // unused time of earlier scenarios is handed on
-            let deadline = t0 + Duration::from_secs_f64(spent_budget);
+            // share of what is left: time not used by earlier scenarios is handed on
+            let left = (a.budget_s - t0.elapsed().as_secs_f64()).max(0.5);
+            let deadline = Instant::now() + Duration::from_secs_f64(left * sc.weight / remaining_w);
+            remaining_w -= sc.weight;
             let mut runner = Runner::new(sc.opts.clone(), sname, setup.clone(), sc.alphabet.clone());
             if let Err(e) = crate::obs::check_method_table(&runner.subject) {
                 agg.machinery_errors.push(e);
